@@ -73,12 +73,14 @@ func sceneWithdraw(o WdOpts) {
 	}
 	balSigner0 := vf.Balance(signer)
 	var target sdk.AccAddress
-	tsel := vf.Choice("target", 3) // 0: whole owner, 1: P0, 2: P2 (another owner's provider)
+	tsel := vf.Choice("target", 4) // 0: whole owner, 1: P0, 2: P2 (another owner's provider), 3: an address nobody registered
 	switch tsel {
 	case 1:
 		target = p[0]
 	case 2:
 		target = p[2]
+	case 3:
+		target = vf.Addr("unregistered", 19)
 	}
 	msg := types.NewMsgWithdrawEarnedFees(signer, target)
 	vf.Assume(msg.ValidateBasic() == nil)
@@ -98,7 +100,7 @@ func sceneWithdraw(o WdOpts) {
 	esc1 := vf.ModuleBalance(types.RequestAccName)
 	paid := vf.Balance(payee).Sub(balPayee0)
 
-	chk("C05", vf.Implies(vf.And(err == nil, tsel != 0), vf.And(rightful, tsel == 1)), "provider-withdrawal-only-by-its-owner")
+	chk("C05 C13", vf.Implies(vf.And(err == nil, tsel != 0), vf.And(rightful, tsel == 1)), "provider-withdrawal-only-by-its-owner")
 	chk("C05", vf.Implies(!signer.Equals(payee), vf.Balance(signer).GTE(balSigner0)), "signer-not-debited")
 	// O2's books are never touched by O1's or a stranger's message
 	chkKF("C13", vf.And(got[2].Equal(e[2]), t2.Equal(tot2)), "other-owner-untouched", "F6", inF6)
